@@ -299,7 +299,7 @@ func kindOf(a pat.Atom) string {
 }
 
 var stats = rig.NewStats("C03",
-	"rapid draws a pool of 3-14 witness-safe patterns (bursts of >=5 literal siblings, parameter siblings, routes not starting with '/') and a history of 2-30 Handle/HandleMany/Remove/Remove(methods, incl. HEAD, OPTIONS, '', unknown)/Clean/Prefix.Clean steps through Router, Prefix and Resource; after every step Routes() is compared with a table model, every live pattern's witness is probed with ten methods (route selection by kind priority, then method lookup), removed pairs are probed, removals are checked against the previous observation vector (frame condition) and nothing may panic. Non-trivial: some removal made a pattern vanish while a live pattern sharing its first atom stayed; distinct by hash of the case",
+	"rapid draws a pool of 3-14 witness-safe patterns (bursts of >=5 literal siblings, parameter siblings, routes not starting with '/') and a history of 2-30 Handle/HandleMany/Remove/Remove(methods, incl. HEAD, OPTIONS, '', unknown)/Clean/Prefix.Clean steps through Router, Prefix and Resource; after every step Routes() is compared with a table model, every live pattern's witness is probed with ten methods (route selection by kind priority, then method lookup), removed pairs are probed, removals are checked against the previous observation vector (frame condition) and nothing may panic. Non-trivial: some removal made a pattern vanish while a live pattern sharing its first atom stayed; distinct by hash of the case. Later additions to the generated domain: Pools and histories share the unusual-size structures and the opening template described for C01.",
 	"witness-safe pools: every rule accepts simple values, the literal after a regexp parameter does not start with a byte of its class",
 	"for Handle the model follows the router's accept/reject verdict (rejections are C17's subject)")
 
